@@ -34,6 +34,7 @@ pub fn alphabet(keys: &[&str], len: usize) -> Vec<Op> {
 	ops.push(Op::Sort);
 	ops.push(Op::RebuildFromVec);
 	ops.push(Op::CloneContinue);
+	ops.push(Op::CloneFromIntoFresh);
 	ops.push(Op::ExtendPairs(vec![keys[0].to_string(), keys[keys.len() - 1].to_string()]));
 	ops
 }
@@ -148,6 +149,8 @@ pub fn op_name(op: &Op) -> &'static str {
 		Op::GetMutOrInsertWith(_) => "get_mut_or_insert_with",
 		Op::CloneContinue => "clone",
 		Op::CloneAndDropOriginalLater => "clone_then_modify_original",
+		Op::CloneFromIntoFresh => "clone_from_into_fresh",
+		Op::CloneFromIntoUsed => "clone_from_into_used",
 		Op::IntoIterRebuild => "into_iter",
 	}
 }
@@ -208,6 +211,8 @@ pub fn op_from_json(j: &serde_json::Value) -> Option<Op> {
 		"get_mut_or_insert_with" => Op::GetMutOrInsertWith(k()),
 		"clone" => Op::CloneContinue,
 		"clone_then_modify_original" => Op::CloneAndDropOriginalLater,
+		"clone_from_into_fresh" => Op::CloneFromIntoFresh,
+		"clone_from_into_used" => Op::CloneFromIntoUsed,
 		"into_iter" => Op::IntoIterRebuild,
 		_ => return None,
 	})
@@ -307,7 +312,14 @@ pub fn random_op(rng: &mut Rng, universe: &[String], len: usize, shrink_bias: bo
 			93..=94 => Op::GetUniqueMut(k),
 			95 => Op::GetOrInsertWith(k),
 			96 => Op::GetMutOrInsertWith(k),
-			97..=98 => Op::CloneContinue,
+			97 => Op::CloneContinue,
+			98 => {
+				if rng.chance(1, 2) {
+					Op::CloneFromIntoFresh
+				} else {
+					Op::CloneFromIntoUsed
+				}
+			}
 			_ => Op::CloneAndDropOriginalLater,
 		}
 	}
@@ -372,6 +384,96 @@ pub fn random_history(rep: &mut Report, rng: &mut Rng, n_keys: usize, n_ops: usi
 	rep.distinct_hash(fnv(format!("{:?}", hist.iter().take(40).collect::<Vec<_>>()).as_bytes()) ^ n_ops as u64);
 }
 
+/// Grow to hundreds of distinct keys, drain to almost nothing through removals
+/// at arbitrary positions, grow again: drives the index through its largest
+/// capacities, tombstones and any shrink policy.
+pub fn grow_drain_history(rep: &mut Report, rng: &mut Rng) {
+	let n_keys = rng.range(230, 700);
+	let universe = make_universe(rng, n_keys);
+	let mut obj = Object::new();
+	let mut m = Model::new();
+	let mut fresh = Fresh(0);
+	let mut hist: Vec<Op> = Vec::new();
+	let mut last_cap = 0usize;
+	let mut step = |op: Op, obj: &mut Object, m: &mut Model, fresh: &mut Fresh, hist: &mut Vec<Op>, rep: &mut Report, check: bool| -> bool {
+		hist.push(op.clone());
+		rep.count("operations_applied", 1);
+		rep.count(&format!("op:{}", op_name(&op)), 1);
+		let r = match guard(|| apply(&op, obj, m, fresh)) {
+			Ok(r) => r,
+			Err(p) => Err(format!("panic: {}", p)),
+		};
+		let r = r.and_then(|()| {
+			if !check {
+				return Ok(());
+			}
+			match guard(|| check_state(obj, m)) {
+				Ok(Ok(st)) => {
+					rep.count("queries_checked", st.queries);
+					rep.count("states_checked", 1);
+					rep.max("largest_object_entries", m.entries.len() as u64);
+					rep.max("largest_bucket_capacity", st.capacity as u64);
+					rep.max("most_distinct_keys", st.buckets as u64);
+					if st.capacity != last_cap {
+						if last_cap != 0 {
+							rep.count("index_capacity_changes(growth/rehash)", 1);
+						}
+						last_cap = st.capacity;
+					}
+					Ok(())
+				}
+				Ok(Err(e)) => Err(e),
+				Err(p) => Err(format!("panic in queries: {}", p)),
+			}
+		});
+		if let Err(e) = r {
+			rep.violation(
+				format!("C06:grow-drain:{}", op_name(&op)),
+				format!("after {} operations of a grow/drain history over {} keys (last: {:?}): {}", hist.len(), n_keys, op, e),
+				json!({"sub": "history", "ops": hist.iter().map(op_json).collect::<Vec<_>>()}),
+			);
+			return false;
+		}
+		true
+	};
+	for round in 0..2 {
+		// grow: every key once (some twice), in random order
+		let mut order: Vec<usize> = (0..n_keys).collect();
+		rng.shuffle(&mut order);
+		for (j, &k) in order.iter().enumerate() {
+			let op = if rng.chance(1, 6) { Op::PushFront(universe[k].clone()) } else { Op::Push(universe[k].clone()) };
+			if !step(op, &mut obj, &mut m, &mut fresh, &mut hist, rep, j % 16 == 0) {
+				return;
+			}
+			if rng.chance(1, 10) {
+				let op = Op::Push(universe[order[rng.below(j + 1)]].clone());
+				if !step(op, &mut obj, &mut m, &mut fresh, &mut hist, rep, false) {
+					return;
+				}
+			}
+		}
+		// drain to a handful of entries through removals at arbitrary positions
+		let floor = rng.range(0, 20);
+		let mut i = 0usize;
+		while m.entries.len() > floor {
+			let len = m.entries.len();
+			let op = match rng.below(10) {
+				0..=5 => Op::RemoveAt(rng.below(len)),
+				6 => Op::RemoveAt(0),
+				7 => Op::Remove(m.entries[rng.below(len)].0.clone(), crate::oracle::objmodel::CONSUMES[rng.below(3)]),
+				8 => Op::RemoveUnique(m.entries[rng.below(len)].0.clone()),
+				_ => Op::RemoveAt(len - 1),
+			};
+			i += 1;
+			if !step(op, &mut obj, &mut m, &mut fresh, &mut hist, rep, i % 4 == 0 || len < 130) {
+				return;
+			}
+		}
+		let _ = round;
+	}
+	rep.distinct_hash(fnv(format!("grow-drain {} {:?}", n_keys, hist.iter().take(30).collect::<Vec<_>>()).as_bytes()));
+}
+
 pub fn run(cfg: &Config) -> i32 {
 	let started = Instant::now();
 	let thorough = cfg.tier == Tier::Thorough;
@@ -412,6 +514,15 @@ pub fn run(cfg: &Config) -> i32 {
 		let per = (ops_budget / shards as u64).max(1);
 		let mut n_hist = 0u64;
 		while done < per {
+			if !san && n_hist % 40 == 7 {
+				rep.evaluations += 1;
+				n_hist += 1;
+				let before = rep.counters.get("operations_applied").copied().unwrap_or(0);
+				grow_drain_history(&mut rep, &mut rng);
+				rep.count("grow_drain_histories", 1);
+				done += rep.counters.get("operations_applied").copied().unwrap_or(0) - before;
+				continue;
+			}
 			let (n_keys, n_ops, every) = match rng.below(10) {
 				0..=3 => (rng.range(1, 4), rng.range(10, 60), 1),
 				4..=6 => (rng.range(5, 20), rng.range(50, 300), 1),
